@@ -177,8 +177,12 @@ def run(run, model, proof):
             try:
                 ex = os.path.join(tmp, "ex.txt")
                 listed = [r for r in some if rng.random() < 0.5]
+                # the file is searched as text: one code per line, or codes separated / decorated any other way (comma lists, quoted
+                # codes or lines copied from a listing, a trailing remark character)
+                deco = rng.choice(["%s", "%s", '"%s"', "%s,", '"SRC": "%s",', "%s:", "#%s#", "code=%s;"])
+                sepr = rng.choice(["\n", "\n", ",", ", ", " ", ";", "\t"])
                 with open(ex, "w") as f:
-                    f.write("\n".join(listed) + "\n")
+                    f.write(sepr.join(deco % r for r in listed) + "\n")
                 rc, out, err = cli_runner.run_inproc(["-p", d] + pl + ["--src-exclude", ex])
                 content = open(ex).read()
             finally:
